@@ -227,6 +227,27 @@ def generate():
            "        let mut r = Cursor::new(buffer);\n        r.set_position(start as u64);\n" + sig +
            "\n        let n = signature.len();\n        Ok((pos, n))\n    }\n}\n")
     write_if_changed(os.path.join(K.GEN, "extracted_init.rs"), xi)
+    # 2c. NodeInfo::encode_peer_list_part: the per-family limit and the flags byte of one peer-list entry (the statements between the
+    #     address-sorting loop and the write of the flags byte)
+    msgs = rd("src/messages.rs")
+    fn_txt = extract_item(msgs, r"^    fn encode_peer_list_part<W: Write>\(&self, mut out: W\)")
+    sl = None
+    if fn_txt:
+        loop = extract_item(fn_txt, r"for a in &p\.addrs \{")
+        endpos = fn_txt.find("out.write_u8(flags)")
+        if loop and endpos > 0:
+            startpos = fn_txt.index(loop) + len(loop)
+            if startpos < endpos:
+                sl = fn_txt[startpos:endpos]
+    sl = need(sl, "limit-and-flags slice in NodeInfo::encode_peer_list_part", "let flags = 0u8;")
+    for v in ("addr_ipv4", "addr_ipv6", "flags"):
+        if not re.search(r"\b%s\b" % v, sl):
+            problems.append("limit-and-flags slice no longer mentions `%s`" % v)
+    xm = ("// GENERATED from %s/src/messages.rs on every run - do not edit\n" % repo +
+          "pub struct XPeerEntry {\n    pub node_id: Option<u8>,\n}\n#[allow(unused_mut)]\n"
+          "pub fn x_peer_entry_flags(p: &XPeerEntry, mut addr_ipv4: SmallVec<[u8; 16]>, mut addr_ipv6: SmallVec<[u8; 16]>) -> (u8, usize, usize) {\n"
+          + sl + "\n    (flags, addr_ipv4.len(), addr_ipv6.len())\n}\n")
+    write_if_changed(os.path.join(K.GEN, "extracted_messages.rs"), xm)
     # 3. playback dispatch
     hs = all_harnesses()
     d = "// GENERATED - playback dispatch\npub fn dispatch(name: &str) -> bool {\n    match name {\n"
